@@ -83,8 +83,8 @@ def _err(msg):
 def _strip_doc(fn):
     body = fn.body
     if body and isinstance(body[0], ast.Expr) and isinstance(body[0].value, ast.Constant) and isinstance(body[0].value.value, str):
-        fn = ast.FunctionDef(name=fn.name, args=fn.args, body=body[1:] or [ast.Pass()], decorator_list=fn.decorator_list,
-                             returns=fn.returns, type_comment=None)
+        import copy
+        fn = copy.copy(fn); fn.body = body[1:] or [ast.Pass()]
     return fn
 
 
